@@ -122,8 +122,14 @@ namespace occa {
         expandArg(newTokens, source, args, arg);
       } else {
         // __VA_ARGS__
+        // The variable arguments keep the commas that separate them
         const int realArgc = (int) args.size();
         for (int i = argc; i < realArgc; ++i) {
+          if (i > argc) {
+            newTokens.push_back(
+              new operatorToken(source->origin, op::comma)
+            );
+          }
           expandArg(newTokens, source, args, i);
         }
       }
